@@ -5,7 +5,8 @@ From Sophia.Common Require Import Prelude.
 From Sophia.Common Require Import Term.
 From Sophia.C04 Require Import Regex Grammar Model AtomsProofs PreFix Proofs.
 From Sophia.C04 Require Import TermGrammar TermRead TermText TermProofs.
-From Sophia.C04 Require Lang Incl TermShapes.
+From Sophia.C04 Require Import Deep DeepProofs.
+From Sophia.C04 Require Lang Incl TermShapes PrefixIncl.
 From Sophia.C09 Require Model.
 
 (* ===== (1) the regenerated regular expressions stay inside the Turtle grammar ===== *)
@@ -195,6 +196,77 @@ Example iri_ok_examples :
   Sophia.C09.Model.iri_new_ok i = true /\ iri_ok i = true /\ iri_ok [97; 32; 98] = false /\ iri_ok [97; 62] = false /\ iri_ok [92] = false.
 Proof. vm_compute. repeat split; reflexivity. Qed.
 
+(* ===== (7) prefixes: the regenerated PN_PREFIX of api/src/prefix/_regex.rs (behind is_valid_prefix / Prefix::new / serde) IS the
+         production PN_PREFIX of the Turtle grammar; a checked prefix map is within the term theorem ===== *)
+Check (PrefixIncl.pn_prefix_re_incl : forall w, matchb pn_prefix_re w = true -> matchb PN_PREFIX w = true).
+Check (PrefixIncl.pn_prefix_re_complete : forall w, matchb PN_PREFIX w = true -> matchb pn_prefix_re w = true).
+Check (PrefixIncl.pn_prefix_re_exact : forall w, matchb pn_prefix_re w = matchb PN_PREFIX w).
+Check (is_valid_prefix_spec : forall p, is_valid_prefix p = prefix_ok p).
+Check (is_valid_prefix_grammar : forall p, is_valid_prefix p = true <-> p = [] \/ matchb PN_PREFIX p = true).
+Check (refused_prefix_not_in_grammar : forall p, is_valid_prefix p = false -> p <> [] /\ matchb PN_PREFIX p = false).
+Check (checked_prefix_map_ok : forall pm,
+  forallb (fun e => is_valid_prefix (fst e)) pm = true -> distinct (map fst pm) = true -> pm_ok pm = true).
+Example translator_prefix_atoms_agree :
+  rexN_eqb (abstract pn_prefix_re) pn_prefix_re_atoms && all_aligned pn_prefix_re && all_aligned PN_PREFIX = true.
+Proof. vm_compute. reflexivity. Qed.
+
+(* ===== (8) the write phase with its nesting bound MAX_DEPTH: whatever the bound and the number of nodes cut loose, the re-scan
+         loop of write_graph ends, leaves no root, and no subject is written by write_tree twice ===== *)
+Check (dwrite_R : forall maxd ks first rest nil type_ quads g (R : dstate -> dstate -> Prop),
+  (forall w, R w w) -> (forall a b c, R a b -> R b c -> R a c) ->
+  (forall w q, R w (d_emit w q)) -> (forall w, R w (d_fail w)) -> (forall w x, R w (d_done w (g, x))) ->
+  (forall w t, R w (d_take_list w t)) -> (forall w t, st_get (d_st w) (g, t) = Some SubTree -> R w (d_cut w (g, t))) ->
+  forall f props depth w t, R w (dwrite maxd ks first rest nil type_ quads f props g depth w t)).
+Check (dwrite_mono_t : forall maxd ks first rest nil type_ quads g f props depth w t,
+  mono_t w (dwrite maxd ks first rest nil type_ quads f props g depth w t)).
+Check (dloop_finishes : forall maxd ks first rest nil type_ quads g fuel w range,
+  (ndone g w range < fuel)%nat -> snd (dloop maxd ks first rest nil type_ quads fuel g w range) = true).
+Check (dgraph_finishes : forall maxd ks first rest nil type_ quads g w range,
+  snd (dgraph maxd ks first rest nil type_ quads g w range) = true).
+Check (dloop_no_root : forall maxd ks first rest nil type_ quads g fuel w range,
+  snd (dloop maxd ks first rest nil type_ quads fuel g w range) = true ->
+  forall s, In s range -> is_root (st_get (d_st (fst (dloop maxd ks first rest nil type_ quads fuel g w range))) (g, s)) = false).
+Check (dgraph_no_root : forall maxd ks first rest nil type_ quads g w range s, In s range ->
+  is_root (st_get (d_st (fst (dgraph maxd ks first rest nil type_ quads g w range))) (g, s)) = false).
+Check (trees_written_once : forall maxd ks first rest nil type_ quads labelled st0 lists,
+  NoDup (d_trees (fst (dwrite_all maxd ks first rest nil type_ quads (d_init labelled st0 lists))))).
+Check (roots_and_cuts_owed : forall maxd ks first rest nil type_ quads labelled st0 lists k,
+  let w := fst (dwrite_all maxd ks first rest nil type_ quads (d_init labelled st0 lists)) in
+  is_root (st_get st0 k) = true \/ In k (d_cuts w) -> owed w k).
+Check (roots_and_cuts_written_exactly_once : forall maxd ks first rest nil type_ quads labelled st0 lists k,
+  let w := fst (dwrite_all maxd ks first rest nil type_ quads (d_init labelled st0 lists)) in
+  is_root (st_get (d_st w) k) = false -> d_odd w = [] ->
+  is_root (st_get st0 k) = true \/ In k (d_cuts w) -> In k (d_trees w) /\ NoDup (d_trees w)).
+Check (accounting_checked_deep : forall maxd ks first rest nil type_ quads labels colls plists,
+  NoDup quads -> plan_d_ok maxd ks first rest nil type_ quads labels colls plists = true ->
+  let r := demitted maxd ks first rest nil type_ quads (make_plan ks first rest nil quads) in
+  snd r = true /\ d_ok (fst r) = true /\ Permutation quads (d_out (fst r)) /\
+  (forall k, In k (d_cuts (fst r)) -> In k (d_trees (fst r))) /\ NoDup (d_trees (fst r))).
+(* the bound of the model is the constant of the source *)
+Example max_depth_is_64 : max_depth = 64.
+Proof. reflexivity. Qed.
+
+Print Assumptions PrefixIncl.pn_prefix_re_incl.
+Print Assumptions PrefixIncl.pn_prefix_re_complete.
+Print Assumptions PrefixIncl.pn_prefix_re_exact.
+Print Assumptions is_valid_prefix_spec.
+Print Assumptions is_valid_prefix_grammar.
+Print Assumptions refused_prefix_not_in_grammar.
+Print Assumptions checked_prefix_map_ok.
+Print Assumptions prefix_examples.
+Print Assumptions translator_prefix_atoms_agree.
+Print Assumptions dwrite_R.
+Print Assumptions dwrite_mono_t.
+Print Assumptions dloop_finishes.
+Print Assumptions dgraph_finishes.
+Print Assumptions dloop_no_root.
+Print Assumptions dgraph_no_root.
+Print Assumptions trees_written_once.
+Print Assumptions roots_and_cuts_owed.
+Print Assumptions roots_and_cuts_written_exactly_once.
+Print Assumptions accounting_checked_deep.
+Print Assumptions deep_example.
+Print Assumptions max_depth_is_64.
 Print Assumptions Incl.integer_re_incl.
 Print Assumptions Incl.decimal_re_incl.
 Print Assumptions Incl.double_re_incl.
